@@ -30,6 +30,12 @@ CHECKS = {
  "C19": ("exploration", "expectation monitor: probe contract records the execution context into storage, compared with what the history supplied",
          "Hand-assembled Probe contract executed through inscription, signed and parked-then-drained transactions on three networks (Prague / Cancun), arbitrary timestamps/hashes/txids, reorgs and a >256-block chain; every recorded value compared with the expectation derived from the calls.",
          "Sampled histories; deposits/withdrawals only checked for the sender (their txid is unobservable)."),
+ "C07": ("exploration", "reference-model monitor: ledger model from the Solidity source predicts every outcome and every balance/supply; adversarial callers",
+         "Real engine with the shipped controller; an ~80-line ledger model (balances, allowances, checked supply) predicts the receipt status of every deposit/withdraw/controller/token call from inscriptions, signed transactions and a forwarder contract, and every balance, token balance, total supply and ticker address after every block; reorgs roll the model back.",
+         "Model follows the shipped Solidity source; sampled operation sequences."),
+ "C08": ("exploration", "reference-model monitor: pending-pool model from the statement; exhaustive small scope over arrival orders x gap patterns + random runs",
+         "Every brc20_transact and finalise on the real engine is compared with a pool model (receipts count/indexes/nonces/sender, txpool_contentFrom, eth_getTransactionCount); all arrival orders of 3 (quick) / 4 (thorough) nonces x gap patterns {0,1,9,10,11} with duplicate/replacement/noise variants, plus random multi-signer runs with reorgs and clearCaches.",
+         "Successors of an expired entry are left unspecified (both behaviours admitted); exhaustive only inside the stated small scope."),
 }
 NOT_YET = "check not built yet in this session (planned, see DESIGN.md)"
 ALL = ["C%02d" % i for i in range(1, 21)]
